@@ -1,5 +1,5 @@
 (** * Theorems about the physical operators (C02, C11, C12). *)
-From RL Require Import Model.Exec.
+From RL Require Import Model.Exec Proofs.ValP.
 From Coq Require Import Lia Permutation Sorted.
 Open Scope Z_scope.
 
@@ -196,3 +196,38 @@ Proof.
   induction rows as [|r rows IH]; cbn; [constructor|].
   eapply Permutation_trans; [apply perm_skip, IH|]. apply insert_sorted_perm.
 Qed.
+
+Lemma key_row_length ks r : length (key_row ks r) = length (map snd ks).
+Proof. unfold key_row. rewrite !map_length. reflexivity. Qed.
+Lemma row_le_total ks a b : row_le ks a b = false -> row_le ks b a = true.
+Proof.
+  unfold row_le. rewrite (ord_cmp_antisym (map snd ks) (key_row ks a) (key_row ks b)).
+  destruct (ord_cmp (map snd ks) (key_row ks a) (key_row ks b)); cbn; congruence.
+Qed.
+Lemma row_le_trans ks a b c : row_le ks a b = true -> row_le ks b c = true -> row_le ks a c = true.
+Proof.
+  unfold row_le. intros H1 H2.
+  pose proof (ord_cmp_le_trans (map snd ks) (key_row ks a) (key_row ks b) (key_row ks c)
+                (key_row_length ks a) (key_row_length ks b) (key_row_length ks c)) as T.
+  destruct (ord_cmp (map snd ks) (key_row ks a) (key_row ks b)) eqn:E1; try discriminate;
+  destruct (ord_cmp (map snd ks) (key_row ks b) (key_row ks c)) eqn:E2; try discriminate;
+  destruct (ord_cmp (map snd ks) (key_row ks a) (key_row ks c)) eqn:E3; try reflexivity;
+  exfalso; apply T; congruence.
+Qed.
+
+Lemma insert_sorted_sorted ks r l :
+  StronglySorted (fun a b => row_le ks a b = true) l ->
+  StronglySorted (fun a b => row_le ks a b = true) (insert_sorted ks r l).
+Proof.
+  induction l as [|x l IH]; intros H; cbn.
+  - constructor; constructor.
+  - inversion H as [|? ? Hs Hall]; subst. destruct (row_le ks r x) eqn:E.
+    + constructor; [exact H|]. constructor; [exact E|].
+      eapply Forall_impl; [|exact Hall]. intros y Hy. eapply row_le_trans; eassumption.
+    + constructor; [apply IH, Hs|].
+      assert (Hxr : row_le ks x r = true) by (apply row_le_total, E).
+      apply (Permutation_Forall (insert_sorted_perm ks r l)). constructor; assumption.
+Qed.
+(** the result of ORDER BY is sorted on the keys (ascending or descending per key, NULL smallest) *)
+Theorem sort_rows_sorted ks rows : StronglySorted (fun a b => row_le ks a b = true) (sort_rows ks rows).
+Proof. induction rows as [|r rows IH]; cbn; [constructor|]. apply insert_sorted_sorted, IH. Qed.
